@@ -260,7 +260,7 @@ fn spec_for(kind: Kind, sum: usize, mode_sel: u64, split: u64) -> NodeSpec {
         }
     };
     let mode = if kind.has_scalar() { [Mode::Scalar, Mode::Bar, Mode::Item][(mode_sel % 3) as usize] } else { [Mode::Bar, Mode::Item][(mode_sel % 2) as usize] };
-    NodeSpec { kind, params: Params::new(a, b, c, 2.0), mode }
+    NodeSpec { kind, params: Params::new(a, b, c, 2.0), mode, dflt: false }
 }
 
 /// fixed corpus: every kind x sum of periods 1..=16 x 7 shapes
